@@ -261,7 +261,10 @@ mod numeric_formatting {
         unformatted_str: &str,
     ) -> Result<String, RuntimeError> {
         let mut result: String = String::new();
-        let unformatted: Vec<char> = unformatted_str.chars().collect();
+        // the sign is not a digit: it goes in front of the leftmost digit afterwards
+        // (otherwise -123 in #,### comes out as -,123)
+        let is_negative = unformatted_str.starts_with('-');
+        let unformatted: Vec<char> = unformatted_str.chars().skip(usize::from(is_negative)).collect();
         // start with the rightmost digit
         let mut i: usize = integer_fmt.len();
         let mut j: usize = unformatted.len();
@@ -289,6 +292,13 @@ mod numeric_formatting {
                 // we run out formatting characters but we still have digits to print
                 result.insert(0, unformatted[j - 1]);
                 j -= 1;
+            }
+        }
+        if is_negative {
+            match result.rfind(' ') {
+                // the blank next to the leftmost digit
+                Some(blank) => result.replace_range(blank..blank + 1, "-"),
+                _ => result.insert(0, '-'),
             }
         }
         Ok(result)
